@@ -131,6 +131,22 @@ def gen_api(seed: int, n: int) -> List[Scn]:
     return out
 
 
+def gen_cli(seed: int, n: int) -> List[Scn]:
+    """The same worker built the way the command line builds it: WorkerArgs.from_cli(argv) -> cli.worker.run.start_listen().
+
+    Scenarios of the other families are re-run through that route (flag parsing, argument wiring, signal handler -> finish
+    event); the clauses are judged against the configuration the command line ASKED for.
+    """
+    per = max(1, n // 5)
+    out: List[Scn] = []
+    for fam in (gen_flow(seed + 101, per), gen_stop_sweep(seed + 101, per), gen_saturation(seed + 101, per),
+                gen_pipe(seed + 101, per), gen_deps(seed + 101, per)):
+        for scn in fam:
+            cfg = dict(scn["cfg"], via="cli")
+            out.append(dict(scn, cfg=cfg, family="cli_entry:" + str(scn.get("family"))))
+    return out
+
+
 def gen_saturation(seed: int, n: int) -> List[Scn]:
     """C04/C03: finite A, P; big backlog, slow tasks, idle poll storms, bursts."""
     rng = random.Random(("sat", seed).__repr__())
